@@ -49,14 +49,19 @@ def optimize_incrementals(sequence: Reversible[str]):
     # identifying terminal points for incrementals; aka, -x x, 'x'
     # is the terminal point- no point in having -x.
     finalized = set()
-    for item in reversed(sequence):
+    items = reversed(sequence)
+    for item in items:
         if item[0] == "-":
             i = item[1:]
             if not i:
                 raise ValueError("encountered an incomplete negation (just -, no flag)")
             if i == "*":
-                # seen enough.
+                # seen enough; what is left of it is overridden, but still has to be well formed.
                 yield item
+                if any(x == "-" for x in items):
+                    raise ValueError(
+                        "encountered an incomplete negation (just -, no flag)"
+                    )
                 return
             if i not in finalized:
                 finalized.add(i)
